@@ -16,6 +16,14 @@ from .program import Program, Crate
 from .report import Ctx
 
 REPO_TEST_CRATES = ("tests", "bugs", "right_ctx", "lua_5_1")
+# (crate, is test build, source file with the lexer! invocations)
+REPO_LEXER_CRATES = (
+    ("tests", True, "crates/lexgen/tests/tests.rs"),
+    ("bugs", True, "crates/lexgen/tests/bugs.rs"),
+    ("right_ctx", True, "crates/lexgen/tests/right_ctx.rs"),
+    ("lua_5_1", True, "crates/lexgen/tests/lua_5_1.rs"),
+    ("lexgen_lalrpop_example", False, "crates/lexgen_lalrpop_example/src/lib.rs"),
+)
 
 
 def code_hash():
@@ -64,8 +72,7 @@ def repo_definitions(repo):
     (file relative to the repo, line of the invocation)."""
     from . import defparse
     out = {}
-    for name in REPO_TEST_CRATES:
-        rel = "crates/lexgen/tests/%s.rs" % name
+    for name, _, rel in REPO_LEXER_CRATES:
         path = os.path.join(repo, rel)
         if not os.path.exists(path):
             continue
@@ -186,8 +193,8 @@ def repo_gen_results(fdir=None, log=None):
                 return pickle.load(f)
         prog = Program(fdir)
         out = []
-        for cn in REPO_TEST_CRATES:
-            out.extend(analyse_crate(prog, prog.crate(cn, test=True), with_defs=True))
+        for cn, is_test, _ in REPO_LEXER_CRATES:
+            out.extend(analyse_crate(prog, prog.crate(cn, test=is_test), with_defs=True))
         os.makedirs(cdir, exist_ok=True)
         tmp = path + ".tmp%d" % os.getpid()
         with open(tmp, "wb") as f:
